@@ -255,6 +255,10 @@ impl ChessMove {
                 cur_index += 2;
                 q
             } else {
+                // the takes specifier must be followed by the destination square
+                if takes {
+                    return Err(error);
+                }
                 let sq = Square::make_square(
                     source_rank.ok_or(error.clone())?,
                     source_file.ok_or(error.clone())?,
@@ -264,6 +268,9 @@ impl ChessMove {
                 sq
             }
         } else {
+            if takes {
+                return Err(error);
+            }
             let sq = Square::make_square(
                 source_rank.ok_or(error.clone())?,
                 source_file.ok_or(error.clone())?,
